@@ -11,6 +11,11 @@ def F(id, prop, file, old, new, rule=None, what=""):
   ROWS.append({"id": id, "prop": prop, "file": file, "old": old, "new": new, "expect": "fire", "rule": rule, "what": what})
 
 
+def U(id, prop, file, old, new, what=""):
+  """property-breaking edit on which the analysis must at least refuse to pass (exit 1 or 2)."""
+  ROWS.append({"id": id, "prop": prop, "file": file, "old": old, "new": new, "expect": "undecided", "what": what})
+
+
 def T(id, prop, file, old, new, what=""):
   ROWS.append({"id": id, "prop": prop, "file": file, "old": old, "new": new, "expect": "silent", "what": what})
 
@@ -189,3 +194,27 @@ F("A27d", "C04", RS, "          if d.bit_length() > max_dsize:\n            brea
 T("A29", "C04", RU, "  differences = [\n      2 ** (prime_size - 100),\n      2 ** (prime_size - 128),\n      2 ** (prime_size - 160),\n      2 ** (prime_size - 256),\n      2 ** (prime_size - 2),\n      2 ** (prime_size - 3),\n  ]",
   "  differences = [2 ** (prime_size - k) for k in (100, 128, 160, 256, 2, 3)]", "differences via comprehension")
 T("A29b", "C04", RU, "    p0 = gmpy.isqrt(n + (diff // 2) ** 2) + diff // 2", "    half = diff // 2\n    p0 = gmpy.isqrt(n + half * half) + half", "guess with a temp")
+
+# ---------------------------------------------------------------------------------- C20
+RG = L + "randomness_tests/rng.py"
+F("D38", "C20", RG, "      x ^= y ^ (y >> 26)\n      blocks.append((x + y) % 2**64)\n    ba = bytearray().join(z.to_bytes(8, \"little\") for z in blocks)\n    res = int.from_bytes(ba, \"little\")\n    if n % 64 != 0:\n      res &= (1 << n) - 1",
+  "      x ^= y ^ (y >> 26)\n      blocks.append((x + y) % 2**64)\n    ba = bytearray().join(z.to_bytes(8, \"little\") for z in blocks)\n    res = int.from_bytes(ba, \"little\")\n    if n % 64 != 0:\n      res &= (1 << (n + 1)) - 1",
+  "R-C20-WIDTH", "XorShift128plus mask one bit too wide")
+F("D39", "C20", RG, "    ba = os.urandom((n + 7) // 8)\n    seq = int.from_bytes(ba, \"little\")\n    if n % 8 != 0:\n      seq >>= -n % 8", "    ba = os.urandom((n + 7) // 8)\n    seq = int.from_bytes(ba, \"little\")\n    if n % 8 != 0:\n      seq >>= n % 8",
+  "R-C20-WIDTH", "Urandom shifts by n % 8")
+F("D40", "C20", RG, "      res[-1] &= (1 << (n % 8)) - 1", "      res[0] &= (1 << (n % 8)) - 1", "R-C20-WIDTH", "LcgNist masks the low byte")
+F("D41", "C20", RG, "      ba[0] &= (1 << (n % 8)) - 1\n    return int.from_bytes(ba, \"big\")", "      ba[0] &= (1 << (n % 8)) - 1\n    return int.from_bytes(ba, \"little\")", "R-C20-WIDTH", "JavaRandom assembled little-endian")
+F("D42", "C20", RG, "    else:\n      y = seed\n    ba = bytearray()\n    chunk_size", "    else:\n      y = seed ^ int.from_bytes(os.urandom(1), \"little\")\n    ba = bytearray()\n    chunk_size", "R-C20-PURE", "Mwc mixes entropy into a seeded run")
+T("D43", "C20", RG, "    ba = bytearray().join(z.to_bytes(4, \"little\") for z in blocks)\n    res = int.from_bytes(ba, \"little\")\n    if n % 32 != 0:\n      res &= (1 << n) - 1",
+  "    ba = bytearray().join(z.to_bytes(4, \"little\") for z in blocks)\n    res = int.from_bytes(ba, \"little\")\n    if n % 32 != 0:\n      res %= 1 << n", "Xorwow: mask written as modulo")
+F("D43b", "C20", RG, "    for _ in range((n + 31) // 32):\n      s = state % 2**32", "    for _ in range((n + 31) // 32 + 1):\n      s = state % 2**32", "R-C20-WIDTH", "Xorwow produces one block too many when 32 | n")
+F("D43c", "C20", RG, "    ba = rand.bytes((n + 7) // 8)\n    res = int.from_bytes(ba, \"little\")\n    if n % 8:\n      res &= (1 << n) - 1", "    ba = rand.bytes(n // 8 + 1)\n    res = int.from_bytes(ba, \"little\")\n    if n % 8:\n      res &= (1 << n) - 1",
+  "R-C20-WIDTH", "NumpyRng draws an extra byte when 8 | n")
+U("D43d", "C20", RG, "    if len(ba) * 8 != n:\n      res &= (1 << n) - 1\n    return res\n\n\nclass NumpyRng", "    if len(ba) * 8 < n:\n      res &= (1 << n) - 1\n    return res\n\n\nclass NumpyRng", "Mwc only masks when too short (length symbolic in output_bits: undecided, exit 2)")
+F("D43e", "C20", RG, "    random.seed(seed)\n    return random.getrandbits(n)", "    return random.getrandbits(n)", "R-C20-PURE", "Mt19937 not seeded")
+F("D43f", "C20", RG, "    a = 0x5DEECE66D\n", "    a = 0x5DEECE66B\n", "R-C20-CONST", "java multiplier typo")
+F("D43g", "C20", RG, "      output = state >> 16\n", "      output = state >> 15\n", "R-C20-CONST", "java output shift")
+F("D43h", "C20", RG, "    if seed is None:\n      seed = int.from_bytes(os.urandom(state_size_bytes), \"little\")\n\n    state = seed", "    seed = int.from_bytes(os.urandom(state_size_bytes), \"little\")\n\n    state = seed", "R-C20-PURE", "TruncLcg ignores the seed")
+F("D43i", "C20", RG, "      output = state >> output_size_bits\n", "      output = state % 2**output_size_bits\n", "R-C20-CONST", "TruncLcg outputs the lower half")
+F("D43j", "C20", RG, "    \"java\": JavaRandom(),\n", "    \"java\": Rng(),\n", "R-C20-REGISTRY", "registry holds the abstract base")
+T("D43k", "C20", RG, "    if n % 8 != 0:\n      seq >>= -n % 8\n    return seq\n\n\nclass Shake128", "    seq >>= -n % 8\n    return seq\n\n\nclass Shake128", "Urandom: unconditional shift by -n % 8 (0 when 8 | n)")
